@@ -10,3 +10,60 @@ Theorem C12_reject_noop : forall st id busy st' r,
 Proof. exact Store_proofs.C12_reject_noop. Qed.
 Print Assumptions C12_reject_noop.
 
+
+(* The acceptance rule itself, for a change set without a parent overlay: the commit succeeds exactly
+   when the committed state is its base AND no commit or rollback has happened since its session was
+   taken; it is refused as stale exactly otherwise. *)
+Theorem C12_commit_accept_iff : forall st id c,
+  find (csets st) id = Some c -> c_parent c = None ->
+  (snd (commit st id false) = COk <-> (cur st = c_base c /\ seqn st = c_seqn c)) /\
+  (snd (commit st id false) = CStale <-> ~ (cur st = c_base c /\ seqn st = c_seqn c)).
+Proof. exact Store_proofs.commit_accept_iff. Qed.
+Print Assumptions C12_commit_accept_iff.
+
+(* ABA: a parent-less session is finished in any state; then any operations at all (other sessions
+   finished - under other identifiers: [no_reuse] -, turned into overlays, dropped, committed or refused;
+   rollbacks) among which at least one commit or rollback succeeds ([moved]); its commit is refused as
+   stale and changes nothing, whatever the committed state is by then - also when it is the change
+   set's base again. *)
+Theorem aba_rejected : forall st id batch ops,
+  no_reuse id ops = true ->
+  moved (finish st id [] batch) ops = true ->
+  let st1 := run_ops (finish st id [] batch) ops in
+  commit st1 id false = (drop st1 id, CStale) /\
+  cur (drop st1 id) = cur st1 /\ hist (drop st1 id) = hist st1 /\ seqn (drop st1 id) = seqn st1 /\
+  marker (drop st1 id) = marker st1 /\ max_len (drop st1 id) = max_len st1.
+Proof. exact Store_proofs.aba_rejected. Qed.
+Print Assumptions aba_rejected.
+
+(* such histories where the base does come back.  Write then delete: change set 1 is prepared on the
+   empty store, 2 inserts a key, 3 deletes it; the store is empty again (= the base of 1, fourth
+   component) but two commits have happened since 1 was taken (count 0, now 2): refused, nothing
+   changed *)
+Example aba_example_delete :
+  let k := [true; false] in
+  let s0 := finish (init (Some 4)) 1%N [] [(k, Some (Some 7%N))] in
+  let ops := [OFinish 2%N [] [(k, Some (Some 5%N))]; OCommit 2%N false;
+              OFinish 3%N [] [(k, Some None)]; OCommit 3%N false] in
+  let s1 := run_ops s0 ops in
+  (no_reuse 1%N ops, moved s0 ops, cur s1, option_map c_base (find (csets s1) 1%N),
+   option_map c_seqn (find (csets s1) 1%N), seqn s1,
+   snd (commit s1 1%N false), cur (fst (commit s1 1%N false)), seqn (fst (commit s1 1%N false)),
+   hist (fst (commit s1 1%N false))) =
+  (true, true, [], Some [], Some 0%N, 2%N, CStale, [], 2%N, [[(k, 5%N)]; []]).
+Proof. vm_compute. reflexivity. Qed.
+Print Assumptions aba_example_delete.
+
+(* commit then rollback *)
+Example aba_example_rollback :
+  let k := [true; false] in
+  let s0 := finish (init (Some 4)) 1%N [] [(k, Some (Some 7%N))] in
+  let ops := [OFinish 2%N [] [(k, Some (Some 5%N))]; OCommit 2%N false; ORollback 1] in
+  let s1 := run_ops s0 ops in
+  (no_reuse 1%N ops, moved s0 ops, cur s1, option_map c_base (find (csets s1) 1%N),
+   option_map c_seqn (find (csets s1) 1%N), seqn s1,
+   snd (commit s1 1%N false), cur (fst (commit s1 1%N false)), seqn (fst (commit s1 1%N false)),
+   hist (fst (commit s1 1%N false))) =
+  (true, true, [], Some [], Some 0%N, 2%N, CStale, [], 2%N, []).
+Proof. vm_compute. reflexivity. Qed.
+Print Assumptions aba_example_rollback.
